@@ -95,7 +95,7 @@ def run_world(tape: Any, scenario: Dict[str, Any], mode_args: List[str], nacc: i
                 ans = (b'%d~' % k) * (cn['size'] // 3)
                 org = Origin(w, ip, 443, lambda i, ans=ans: [('pause_read',), ('wait_rx', lambda pe: pe.st is not None and len(pe.st.rx) > 0),
                                                              ('send', ans, 'burst'), ('wait_drain',), ('sleep', 0.05), ('reset',)],
-                             name='o%d' % k, cap_in=1024)
+                             name='o%d' % k, cap_in=1024, reading=False)
                 script += [('send', b'CONNECT %s:443 HTTP/1.1\r\nHost: %s:443\r\n\r\n' % (ip.encode(), ip.encode()), 'burst'),
                            ('wait_rx', lambda pe: b'\r\n\r\n' in pe.rx), ('pause_read',), ('send', b'U' * 20000, 'burst'),
                            ('sleep', 1.0), ('resume_read',), ('wait_eof',), ('close',)]
